@@ -5,22 +5,22 @@ Import ListNotations.
 Open Scope N_scope.
 
 (* a nil source pointer leaves the target untouched *)
-Theorem C10_nil_source_pointer_noop : forall e M f a old st, eval_a e M (S f) (AIfNotNil a) VNil old st = Done (old, st).
+Theorem C10_nil_source_pointer_noop : forall e M F f cx a old st, eval_a e M F (S f) cx (AIfNotNil a) VNil old st = Done (old, st).
 Proof. exact eval_update_nil_source. Qed.
 (* ignored and unmapped target fields keep their previous values *)
-Theorem C10_skipped_field_keeps_value : forall ea fr src o orr st rs st',
-  each_field ea (FSkip :: fr) src (o :: orr) st = Done (rs, st') -> exists rs', rs = o :: rs'.
+Theorem C10_skipped_field_keeps_value : forall ev ea fr src o orr st rs st',
+  each_field ev ea (FSkip :: fr) src (o :: orr) st = Done (rs, st') -> exists rs', rs = o :: rs'.
 Proof. exact each_field_skip. Qed.
 (* a zero-valued source field under a guard leaves the target field unchanged *)
-Theorem C10_zero_guard_keeps_value : forall ea sel a fr src o orr st rs st' s,
-  eval_sel sel src = Some s -> is_zero s = true ->
-  each_field ea (FAssign sel true a :: fr) src (o :: orr) st = Done (rs, st') -> exists rs', rs = o :: rs'.
+Theorem C10_zero_guard_keeps_value : forall ev ea nm sel a fr src o orr st rs st' s st0,
+  sel_eval ev sel src st = Done (s, st0) -> is_zero s = true ->
+  each_field ev ea (FAssign nm sel true a :: fr) src (o :: orr) st = Done (rs, st') -> exists rs', rs = o :: rs'.
 Proof. exact each_field_zero_guard. Qed.
 (* a mapped field without guard is replaced by the conversion of its source part *)
-Theorem C10_mapped_field_replaced : forall ea sel a fr src o orr st rs st' s,
-  eval_sel sel src = Some s ->
-  each_field ea (FAssign sel false a :: fr) src (o :: orr) st = Done (rs, st') ->
-  exists v st1 rs', ea a s o st = Done (v, st1) /\ rs = v :: rs'.
+Theorem C10_mapped_field_replaced : forall ev ea nm sel a fr src o orr st rs st' s st0,
+  sel_eval ev sel src st = Done (s, st0) ->
+  each_field ev ea (FAssign nm sel false a :: fr) src (o :: orr) st = Done (rs, st') ->
+  exists v st1 rs', ea a s o st0 = Done (v, st1) /\ rs = v :: rs'.
 Proof. exact each_field_unguarded. Qed.
 
 (* which fields get the guard: the decision table of the source, category by category *)
@@ -50,15 +50,15 @@ Theorem C10_zero_check_nothing_selected : forall e conf s t upd call,
   x_shouldCheckAgainstZero e conf s t upd call = false.
 Proof. exact zero_check_nothing_selected. Qed.
 (* ... inline pointer / slice conversions keep the old value on nil by their own nil guard *)
-Theorem C10_inline_pointer_nil_keeps : forall e M f q old st, eval_a e M (S f) (APtr q) VNil old st = Done (old, st).
+Theorem C10_inline_pointer_nil_keeps : forall e M F f cx q old st, eval_a e M F (S f) cx (APtr q) VNil old st = Done (old, st).
 Proof. reflexivity. Qed.
-Theorem C10_inline_slice_nil_keeps : forall e M f el a old st, eval_a e M (S f) (AList false el a) VNil old st = Done (old, st).
+Theorem C10_inline_slice_nil_keeps : forall e M F f cx el a old st, eval_a e M F (S f) cx (AList false el a) VNil old st = Done (old, st).
 Proof. exact eval_slice_nil. Qed.
 
 (* known deviation F-C10-1 (faithful model): a nillable field converted through a method call is assigned
    unconditionally; a nil source overwrites a non-nil target field although every category is selected *)
 Theorem C10_zero_skip_through_call_refuted :
-  eval_a [] f_c10_1_table 5 (AStruct [FAssign (SelPath [(false, 0)] WNone) false (ASet (PCall 0))])
+  eval_a [] f_c10_1_table [] 5 [] (AStruct [FAssign [70] (SelPath [(false, 0)] WNone) false (ASet (PCall 0))])
          (VStruct [VNil]) (VStruct [VPtr 7 (VBasic 1)]) 10 = Done (VStruct [VNil], 10).
 Proof. exact zero_skip_through_call_refuted. Qed.
 
